@@ -119,6 +119,13 @@ def gen(rng, tier):
             cases.append("srv %d %s e0:%s" % (n, " ".join(["c"] * (n + 1)), kind))
         for kind in IDLE_KINDS:
             cases.append("srv %d %s l0 e0:%s" % (n, " ".join(["c"] * (n + 1)), kind))
+    # the server ends a connection whose request body it never read (error / panic / drop answered on an upload
+    # head) while the client stays connected and silent: the slot must come back all the same
+    for n in (1, 2):
+        for kind in ("err500", "panic", "drop"):
+            cases.append("srv %d %s e0:%s" % (n, " ".join(["C"] + ["c"] * n), kind))
+            cases.append("srv %d %s l0 Q0 e0:%s" % (n, " ".join(["c"] * (n + 1)), kind))
+    cases.append("srv 2 C C c c e0:err500 e1:drop l2 e2:close")
     cases.append("srv 3 c c c c c c c e0:panic e1:drop e2:err500 l3 e3:malformed e4:abort")
     cases.append("srv 4 c c c c c c c c l0 l1 q0 e1:aborthead e2:okclose e3:abort l0 e0:abortbody")
     for _ in range(40 if tier == "quick" else 1200):
